@@ -13,9 +13,16 @@ import (
 
 func (ro *Roles) defsReads(r *Report, rule string) {
 	w := ro.w
-	retention := w.FuncByRole("", "(*PipelineRunner).determineIfJobShouldBeRemoved", func(f *ssa.Function) bool {
-		return recvIs(f, "PipelineRunner") && sigHas(f, []string{"int", "PipelineJob"}, []string{"bool", "string"})
-	})
+	// the retention decision (found by what it is: (job, rank) → bool/enum on the save path); when it is
+	// handed the definition instead of looking it up, its caller does the lookup on its behalf
+	var retention, retentionCaller *ssa.Function
+	if ro.Save != nil {
+		rd := findRetentionDecision(w, ro, saveRegion(w, ro))
+		retention = rd.dec
+		if rd.def != nil && rd.call != nil {
+			retentionCaller = rd.call.Parent()
+		}
+	}
 	listP := w.FuncByName("", "(*PipelineRunner).ListPipelines")
 	allowed := map[*ssa.Function]string{}
 	add := func(f *ssa.Function, why string) {
@@ -27,6 +34,15 @@ func (ro *Roles) defsReads(r *Report, rule string) {
 	add(ro.Accept, "the definition is looked up when the job is accepted (that is the snapshot)")
 	add(ro.TaskChange, "fail-fast setting is read at failure time")
 	add(retention, "retention settings are read at save time")
+	add(retentionCaller, "retention settings are looked up at save time for the retention decision")
+	if retentionCaller != nil {
+		// every caller of a decision that is handed the definition does that lookup (a wrapper kept for tests, say)
+		for _, g := range w.ModFuncs {
+			if g.Parent() == nil && len(findCalls(g, func(_ string, c *ssa.CallCommon) bool { return c.StaticCallee() == retention })) > 0 {
+				add(g, "retention settings are looked up for the retention decision")
+			}
+		}
+	}
 	add(listP, "the list of defined pipelines is reported as of now")
 	add(ro.Replace, "the reload itself")
 	// a helper all of whose callers are allowed functions (or such helpers) reads on their behalf
